@@ -46,7 +46,7 @@ Fixpoint tee_loop_f (ok : nat) (reads : list bytes) (file stream : bytes) : byte
     end
   end.
 
-(* with open(file_name, "wb") as file: ...   (the log starts empty) *)
+(* the log file is opened (truncated) by OutputHandler.popen_arg before the task starts and handed to the copier: the log starts empty *)
 Definition tee_pipe_run (reads : list bytes) (stream : bytes) : bytes * bytes := tee_loop reads [] stream.
 
 (* ---------- the same loop as a thread that is scheduled one iteration at a time ---------- *)
